@@ -430,6 +430,7 @@ type connectStreamingClientConn struct {
 	unmarshaler      connectStreamingUnmarshaler
 	responseHeader   http.Header
 	responseTrailer  http.Header
+	trailersMerged   bool
 }
 
 func (cc *connectStreamingClientConn) Spec() Spec {
@@ -458,7 +459,12 @@ func (cc *connectStreamingClientConn) Receive(msg any) error {
 		return nil
 	}
 	// See if the server sent an explicit error in the end-of-stream message.
-	mergeHeaders(cc.responseTrailer, cc.unmarshaler.Trailer())
+	// Receive may be called again after the stream has ended: merge the
+	// trailers only once, or every further call would append them again.
+	if !cc.trailersMerged {
+		cc.trailersMerged = true
+		mergeHeaders(cc.responseTrailer, cc.unmarshaler.Trailer())
+	}
 	if serverErr := cc.unmarshaler.EndStreamError(); serverErr != nil {
 		// This is expected from a protocol perspective, but receiving an
 		// end-of-stream message means that we're _not_ getting a regular message.
